@@ -214,6 +214,56 @@ def _score(ctx):
     return len({v["key"] for v in ctx.viol}) + (50 if ctx.inconclusive else 0)
 
 
+def _resolve_undecided(prop, tier, fn, level, ctx0):
+    """The program as written leaves clause instances undecided (a form the rule cannot read).  Look at the views
+    with the helpers of the functions concerned inlined: a view in which everything is decided and nothing is violated
+    is adopted; a view in which an instance that is undecided here is *violated* is adopted too (nothing established it
+    in any view, and the inlined view shows the construct)."""
+    from . import inline
+    cands = set()
+    for path in set(ctx0.fact_paths.values()):
+        try:
+            cands |= set(inline.candidates(path))
+        except Exception:
+            pass
+    hot = {u.get("function") for u in ctx0.undecided if u.get("function")}
+    rel = []
+    try:
+        for f in ctx0._facts.values():
+            cg, _ = f.callgraph()
+            for hf in hot:
+                root = hf
+                while "::{closure#" in root:
+                    root = root.rsplit("::{closure#", 1)[0]
+                for k_ in [hf, root]:
+                    for c in cg.get(k_, ()):
+                        if c in cands and c not in rel:
+                            rel.append(c)
+                    if k_ in cands and k_ not in rel:
+                        rel.append(k_)
+    except Exception:
+        pass
+    und_clauses = {u["clause"] for u in ctx0.undecided}
+    t0 = time.time()
+    trials = [frozenset([h]) for h in rel[:6]]
+    if len(rel) > 1:
+        trials.append(frozenset(rel[:6]))
+    for trial in trials:
+        if time.time() - t0 > float(os.environ.get("JL_INLINE_BUDGET", "240")):
+            break
+        c, ok = _attempt(prop, tier, fn, level, trial)
+        if not ok or c.inconclusive:
+            continue
+        if not c.viol and len(c.undecided) < len(ctx0.undecided):
+            c.notes.append("decided on a behaviour-preserving view of the program (private helper functions inlined at their call sites: %s); the program as written left %d clause instance(s) unread" % (", ".join(c.inline_set), len(ctx0.undecided)))
+            return c
+        if c.viol and any(v["clause"] in und_clauses for v in c.viol):
+            c.viol = [v for v in c.viol if v["clause"] in und_clauses]
+            c.notes.append("reported on the view of the program with %s inlined at their call sites: the program as written left these clause instances unread, the view shows the construct" % ", ".join(c.inline_set))
+            return c
+    return None
+
+
 def _helper_views(prop, tier, fn, level, ctx0):
     """The rule did not pass on the program as written.  Inlining a private helper function at its call sites
     is behaviour-preserving, and a rule that holds on a behaviourally identical program holds for the property:
@@ -301,6 +351,11 @@ def run_check(prop, tier, fn, level="other"):
             alt.notes.append("decided on a behaviour-preserving view of the program: private helper functions inlined at their call sites: %s (the program as written left %d clause instance(s) undecided)" % (", ".join(alt.inline_set), _score(ctx)))
             alt.t0 = ctx.t0
             ctx, ok = alt, True
+    if ok and not ctx.viol and not ctx.inconclusive and ctx.undecided and os.environ.get("JL_NO_INLINE") != "1" and not forced:
+        alt = _resolve_undecided(prop, tier, fn, level, ctx)
+        if alt is not None:
+            alt.t0 = ctx.t0
+            ctx = alt
     if not ok:
         pass
     else:
